@@ -27,7 +27,8 @@ def _call_periodic(loop: asyncio.BaseEventLoop, name, interval, callback):
 
     def run(handle, fn=callback):
         try:
-            r = fn()
+            # the truth value is taken here too: a result that has none (a list of several elements) is a failure
+            r = bool(fn())
         except BaseException:
             # a failing callback ends the timer: it is no longer live, so .timerc has nothing to stop
             handle.delegate = None
